@@ -642,7 +642,7 @@ func TestC19(t *testing.T) {
 			"SuppressReason values idempotency / version are the documented constants of the public API",
 			"testing/synctest virtual time drives the result-TTL expiry; both brokers' sweep goroutines end on Close",
 		},
-		Cases: map[string]int{"quick": 2000, "thorough": 20000},
+		Cases: map[string]int{"quick": 1600, "thorough": 24000},
 		RequireCounters: []string{"suppressed_idempotent", "suppressed_version", "stream_suppressed_idempotent", "map_suppressed_idempotent", "stream_suppressed_version", "map_suppressed_version",
 			"fresh_after_result_ttl", "ttl_expiry_crossed", "repeat_within_2s_before_result_ttl", "default_result_ttl_jump", "unversioned_publish_kept_protection", "version_beyond_2p53_suppressed", "version_beyond_2p53_accepted_over_older"},
 		Run: func(c *kit.Case) {
